@@ -380,8 +380,15 @@ def bytes_to_int(b, byteorder="big", signed=False):
     """model of int.from_bytes on a symbolic string.  concrete length <= 4: bit-precise;
     otherwise the uninterpreted OS2IP with 0 <= OS2IP(b) < 256^|b| (and I2OSP_n(OS2IP(b)) = b
     when |b| = n is concrete)."""
-    if signed or byteorder != "big":
-        raise Unsupported("from_bytes(signed/little)")
+    if signed:
+        raise Unsupported("from_bytes(signed)")
+    if byteorder != "big":
+        # a different (uninterpreted) function: comparisons with the big-endian specification fail
+        b = SymBytes.lift(b)
+        g = _uf("OS2IP_LE", SEQ, z3.IntSort())
+        t = g(b.t)
+        core.cur().add_fact(t >= 0)
+        return SymZ(t, 0, None)
     b = SymBytes.lift(b)
     c = core.cur()
     L = b.length
